@@ -85,7 +85,7 @@ CHECKS = {
          "DESIGN.md §5 C15, A.6"),
  "C12": ("mc-lang", "exploration",
          "exhaustive grammar-derivation enumeration (bounded depth/repetition) plus all single-token mutants, subtree deletions and one-gap layout deviations, each decided by a reference recogniser written from LANGUAGE.md and by the real parser",
-         "For every non-terminal of LANGUAGE.md every derivation to depth 4 with at most 2 repetitions (full substitute set to depth 3; ~11k base documents) is embedded in a minimal document; around each base document every single-token deletion, duplication, swap and substitution by every token class, every subtree deletion, every one-gap layout deviation (no space, newline, line/block comment, CR, tab) and a sweep of 1274 code points in identifier position are generated (~10 M texts). The reference recogniser (harness/mc-lang/src/reference.rs, transcribing the EBNF) and Document::parse must agree on accept/reject; for accepted texts the span-stripped serialised AST must equal the reference derivation tree; rejected texts must carry at least one label inside the source.",
+         "For every non-terminal of LANGUAGE.md every derivation to depth 4 with at most 2 repetitions (full substitute set to depth 3; ~11k base documents) is embedded in a minimal document; around each base document every single-token deletion, duplication, swap and substitution by every token class, every subtree deletion, every one-gap layout deviation (no space, newline, line/block comment, CR, tab) and a sweep of 1274 code points in identifier position are generated (~10 M texts), plus the tight-layout rendering (separators dropped wherever the reference tokenizer still splits the text identically) of every base document and of the mutants of the depth-3 documents (thorough: of all documents; ~2.7 M / 224 M more texts). The reference recogniser (harness/mc-lang/src/reference.rs, transcribing the EBNF) and Document::parse must agree on accept/reject; for accepted texts the span-stripped serialised AST must equal the reference derivation tree; rejected texts must carry at least one label inside the source.",
          "Trusts the reference recogniser as a transcription of LANGUAGE.md (with the widening clarifications listed in the evidence assumptions). Where LANGUAGE.md is silent the case is counted unspecified. Disagreements the maintainers' pinned tests rely on (e.g. `result<_>`) are listed in known-findings.json.",
          "DESIGN.md §5 C12, §4 E4"),
  "C13": ("mc-lang", "exploration",
@@ -95,7 +95,7 @@ CHECKS = {
          "DESIGN.md §5 C13, §4 E4"),
  "C14": ("mc-lang", "fault_enumeration",
          "exhaustive single-fault enumeration around valid documents and valid package binaries (every token mutant, prefix, character substitution, multi-byte insertion; every byte prefix, bit flip and byte substitution), nesting families in supervised subprocesses; panic/abort/hang/span oracle on the real parser, resolver, decoder and encoder",
-         "Text half: around every base document of the C12 corpus (depth 3) and every repository .wac file: every single-token mutant, subtree deletion, layout deviation, every prefix, every single-character substitution by {NUL, quote, slash, DEL}, every insertion of 12 multi-byte scalars at every token boundary, truncation into a comment, and parametric nesting families at depths 2^1..2^17 (supervised workers; death by signal or 5 s silence is a violation) - ~5.5 M texts. parse, then resolve (empty package set) and encode must return without panic; every span and every error label must satisfy offset+len <= len on character boundaries; every error must render with miette's graphical handler. Byte half: every prefix, single-bit flip and substitution by {00,01,7F,80,FF} of 14 seed binaries (library components, core module, headers; ~74k byte strings quick) decoded with Package::from_bytes in supervised chunk workers, and decodable ones instantiated and encoded in both modes; 795/5k document x package pairings (missing, swapped, corrupted) resolved and encoded.",
+         "Text half: around every base document of the C12 corpus (depth 3) and every repository .wac file: every single-token mutant, subtree deletion, layout deviation, every prefix, every single-character substitution by {NUL, quote, slash, DEL}, every insertion of 12 multi-byte scalars at every token boundary, truncation into a comment, and parametric nesting families at depths 2^1..2^17 (supervised workers; death by signal or 5 s silence is a violation) - ~5.5 M texts. parse, then resolve (empty package set) and encode must return without panic; every span and every error label must satisfy offset+len <= len on character boundaries; every error must render with miette's graphical handler. Byte half: every prefix, single-bit flip and substitution by {00,01,7F,80,FF} of 14 seed binaries (library components, core module, headers; ~74k byte strings quick) decoded with Package::from_bytes in supervised chunk workers, and decodable ones instantiated and encoded in both modes; 795/5k document x package pairings (missing, swapped, corrupted) and every ordered list of 1..3 (thorough 4) packages of the versioned-import library instantiated with implicit arguments (2379 / 30k documents) resolved and encoded. Every corpus text is additionally rendered in the tightest layout the reference tokenizer still splits identically (~2.7 M more texts quick).",
          "Single faults only (no pairs of faults); invalid UTF-8 is not representable as &str. Hangs are detected by a 5 s silence bound in workers. 4 known findings (deep-nesting stack overflow, miette width panic, encoder panic on a decodable mutant) are listed in known-findings.json.",
          "DESIGN.md §5 C14, §4 E6"),
  "C18": ("mc-env", "exploration",
